@@ -19,6 +19,13 @@ BodyAddr(a)      == [k |-> "addr",  a |-> a,    f |-> "", fn |-> ""]
 BodyField(f, fn) == [k |-> "field", a |-> None, f |-> f,  fn |-> fn]
 BodyVft(fn)      == [k |-> "vft",   a |-> None, f |-> "", fn |-> fn]
 
+(* Function::is_internal: no wrapper for a function whose name starts with `_`.  CHECKFWD (named deviation, C07):   *)
+(* TRUE = the repaired behaviour: a forwarder to a base function is never internal (its name may start with the name *)
+(* of a base field), and internal functions of a base are not forwarded in the first place                          *)
+CHECKFWD == TRUE
+StartsUnderscore(name) == Len(name) > 0 /\ SubSeq(name, 1, 1) = "_"
+IsInternalFn(f) == StartsUnderscore(f.name) /\ ~(CHECKFWD /\ f.body.k = "field")
+
 Fail(why) == [ok |-> FALSE, why |-> why]
 Ok(v)     == [ok |-> TRUE, v |-> v]
 
@@ -50,6 +57,7 @@ BuildFunction(reg, scope, isV, f) ==
       ELSE IF HasBadExtra(f) THEN Fail("bad-cc")
       ELSE IF ~isV /\ ~IsSome(f.addr) THEN Fail("no-address")
       ELSE IF badArg THEN Fail("unresolved-param")
+      ELSE IF CHECKNAMES /\ HasDupNames(NamesOf(SelectSeq(f.args, LAMBDA a : a.k = "named"))) THEN Fail("duplicate-param")
       ELSE IF f.ret # TNone /\ rret = TNone /\ ~DROPRET THEN Fail("unresolved-return")
       ELSE Ok([vis |-> f.vis, name |-> f.name, doc |-> f.doc, body |-> body,
                args |-> rargs, ret |-> rret, cc |-> cc])
@@ -85,10 +93,12 @@ ConvertFrom(reg, scope, fs, out) ==
 
 ConvertVft(reg, scope, vft) ==
   LET c == ConvertFrom(reg, scope, vft.funcs, <<>>)
+      full == IF IsSome(vft.size) THEN PadTo(c.v, vft.size) ELSE c.v
   IN IF IsSome(vft.size) /\ vft.size < 0 THEN Fail("conv-vft-size")
      ELSE IF ~c.ok THEN c
      ELSE IF IsSome(vft.size) /\ vft.size < Len(c.v) /\ CHECKIDX THEN Fail("vft-size-too-small")
-     ELSE IF IsSome(vft.size) THEN Ok(PadTo(c.v, vft.size))
-     ELSE c
+     (* every slot is a field of the table: names distinct, placeholders included *)
+     ELSE IF CHECKNAMES /\ HasDupNames(NamesOf(full)) THEN Fail("duplicate-vfunc")
+     ELSE Ok(full)
 
 =============================================================================
